@@ -258,16 +258,9 @@ def run(ctx):
         # identifiers spelled with escape sequences: well formed and allowed, well formed but standing for a
         # character that may not appear there, malformed - at every position of a name
         if ctx.shard == 2 % ctx.nshards:
-            escs = ['\\u0061', '\\u00e9', '\\u0030', '\\u200c', '\\u0301', '\\u203f', '\\u0024', '\\u005f',
-                    '\\u0020', '\\u005c', '\\u002e', '\\u2028', '\\u002d', '\\u00zz', '\\u12', '\\x41', '\\',
-                    '\\u{61}', '\\U0061', '\\u0069f']
-            for esc in escs:
-                for name in ('%s', 'a%s', 'a%sb', 'ab1%s', '%sb', '\\u0061%s', 'a%s\\u0062', '$_%sx'):
-                    for ctxt in ('%s', 'x = %s;', 'var %s = 1', 'a.%s', 'f(%s)', '({%s: 1})', 'function %s() {}',
-                                 '%s: for (;;) break %s', 'x = {get %s() {}}', 'try {} catch (%s) {}', 'x = %s in y',
-                                 'typeof %s'):
-                        check_text(ctx, ctxt.replace('%s', name % esc), 'identifier_escape', 9, 8)
-                        ctx.hit('identifier_escape')
+            for text in work.identifier_escape_texts():
+                check_text(ctx, text, 'identifier_escape', 9, 8)
+                ctx.hit('identifier_escape')
 
         def opts_fn(i, rng):
             return jsgen.Opts(clean=(i % 3 != 0), unicode_idents=(i % 5 == 0),
